@@ -218,7 +218,7 @@ func cmdReplayRewrites(args []string) error {
 				eqSpec := alpha.Vals[a.Vi-1].V == alpha.Vals[b.Vi-1].V
 				eqReal := reflect.DeepEqual(symRule[a.ID].DNSRewrite, symRule[b.ID].DNSRewrite)
 				if eqSpec != eqReal {
-					return fmt.Errorf("value table and parser disagree on equality of %q and %q", symText[a.ID], symText[b.ID])
+					return rejectedErr("the specification's value table and the parser disagree on whether %q and %q have the same value", symText[a.ID], symText[b.ID])
 				}
 			}
 		}
